@@ -303,6 +303,9 @@ def rule_no_struct_copies_into_caches(ctx, rule='R17.7'):
 
 
 def run(ctx):
+    from . import c06 as _c06
+    _c06.rule_empty_delta(ctx)     # R06.10: a simulation equals its own restored snapshot also when that state equals the first snapshot
+    serial.rule_R05_1(ctx)         # R05.1: every member that a copy needs is persisted (a copy is serialise + deserialise)
     from . import c19
     c19.rule_serving_is_readonly(ctx)     # R19.4: copying does not change the source
     rule_no_struct_copies_into_caches(ctx)
